@@ -229,11 +229,70 @@ async def run_real(case, tmpdir):
                     rec["exc"] = "HARNESS:" + repr(e)[:120]
                 rec["containers_after"] = containers()
                 obs["repeats"].append(rec)
+        # file history: the SAME path used again after its content changed (rewritten / appended / truncated / replaced by
+        # rename), on this connection or another one (other stack too), mixed with in-memory calls
+        obs["file_steps"] = []
+        if path and not obs["stall"] and not case.get("fault") and not case.get("generic_mode"):
+            cur_text = case["text"]
+            for stp in case.get("file_steps", []):
+                rec = {"how": stp["how"], "change": stp.get("change"), "inmem": stp.get("inmem"), "exc": None, "resps": None}
+                try:
+                    ch = stp.get("change")
+                    if ch == "rewrite":
+                        with open(path, "wb") as f:
+                            f.write(stp["text"].encode("utf-8"))
+                        cur_text = stp["text"]
+                    elif ch == "append":
+                        with open(path, "ab") as f:
+                            f.write(stp["text"].encode("utf-8"))
+                        cur_text = cur_text + stp["text"]
+                    elif ch == "truncate":
+                        cur_text = cur_text[:stp["keep"]]
+                        os.truncate(path, len(cur_text.encode("utf-8")))
+                    elif ch == "rename":
+                        with open(path + ".new", "wb") as f:
+                            f.write(stp["text"].encode("utf-8"))
+                        os.replace(path + ".new", path)
+                        cur_text = stp["text"]
+                    rec["text"] = cur_text
+                    if stp["how"] == "same":
+                        cn2, dev2, sp2 = conn, dev, spans
+                    else:
+                        st2 = stack if stp["how"] == "new" else ("async" if stack == "sync" else "sync")
+                        dev2 = CliDevice(devplat, outputs=lambda mode, line: outs.get(line), fail_lines=set(case["fail"]))
+                        cn2, t2 = make_conn(plat, dev2, stack=st2, **kw)
+                        await _aw(cn2.open())
+                        if case.get("session"):
+                            cn2.register_configuration_session(case["session"])
+                        sp2 = []
+                        if plat != "generic":
+                            _wrap_acquire(cn2, dev2, t2, sp2, st2 == "async")
+                    del sp2[:]
+                    m0 = len(dev2.exec_log)
+                    try:
+                        if stp.get("inmem") is not None:
+                            fn = cn2.send_configs if op == "cfgsfile" else cn2.send_commands
+                            r2 = await _aw(fn(list(stp["inmem"]), **kwargs))
+                        else:
+                            r2 = await call(cn2)
+                        rec["resps"] = [(x.channel_input, x.result, bool(x.failed)) for x in r2]
+                    except SimStall:
+                        rec["exc"] = "stall"
+                    except Exception as e:  # noqa
+                        rec["exc"] = type(e).__name__
+                    inside = set()
+                    for sp in sp2:
+                        inside.update(range(sp["s"], sp["e"]))
+                    rec["nonnav"] = [l for i, (_, l) in enumerate(dev2.exec_log[m0:], start=m0) if i not in inside]
+                except Exception as e:  # noqa
+                    rec["exc"] = "HARNESS:" + repr(e)[:120]
+                obs["file_steps"].append(rec)
         if path:
-            try:
-                os.unlink(path)
-            except OSError:
-                pass
+            for pth in (path, path + ".new"):
+                try:
+                    os.unlink(pth)
+                except OSError:
+                    pass
         spans[:] = spans_first
         new = dev.exec_log[n0:n1]
         in_span = [False] * len(new)
@@ -399,6 +458,43 @@ def oracle_history(case, obs):
     return v
 
 
+def oracle_file_history(case, obs):
+    """every later call with the same path: the device receives exactly the lines the file holds AT THE TIME OF THAT CALL
+    (in-memory steps: the list given), in order, and the responses report them"""
+    v = []
+    plat, op = case["platform"], case["op"]
+    marks = markers_in_effect(case, obs)
+    for j, r in enumerate(obs.get("file_steps", []), start=2):
+        if (r["exc"] or "").startswith("HARNESS"):
+            continue
+        lines = list(r["inmem"]) if r.get("inmem") is not None else r["text"].splitlines()
+        what = f"call {j} ({r['how']} connection, " + ("in-memory list" if r.get("inmem") is not None else f"same path after {r['change'] or 'no change'}") + ")"
+        if not lines:
+            if r["nonnav"]:
+                v.append(("file-history", f"{what}: file is empty but the device executed {_short(r['nonnav'])}"))
+            continue
+        if r["exc"]:
+            v.append(("file-history", f"{what}: raised {r['exc']}; lines {_short(lines)}"))
+            break
+        pre = []
+        for l in lines:
+            pre.append(l)
+            if case["stop"] and marks and any(mk in dev_text(case, l) for mk in marks):
+                break
+        failed = bool(marks) and any(any(mk in dev_text(case, l) for mk in marks) for l in pre)
+        aborts = []
+        if op in CFG_OPS and case["stop"] and failed:
+            if plat not in SESSION_ONLY_ABORT or (case.get("session") and case.get("priv") == case["session"]):
+                aborts = list(ABORT_SPEC.get(plat, []))
+        if r["nonnav"] != pre + aborts:
+            v.append(("file-history", f"{what}: device executed {_short(r['nonnav'])}; the source holds {_short(lines)} (want {_short(pre + aborts)})"))
+            break
+        if [x[0] for x in r["resps"]] != pre:
+            v.append(("file-history", f"{what}: responses report {_short([x[0] for x in r['resps']])}; lines sent {_short(pre)}"))
+            break
+    return v
+
+
 def _short(x):
     t = repr(x)
     return t if len(t) < 240 else t[:240] + "…"
@@ -409,6 +505,7 @@ def oracle(case, obs):
     v = oracle_core(case, obs)
     if not case.get("fault") and "log" in obs and not obs["stall"]:
         v += oracle_history(case, obs)
+        v += oracle_file_history(case, obs)
     return v
 
 
@@ -572,6 +669,37 @@ def gen_line(rng, allow_seps):
     return "c%d" % rng.randrange(50)
 
 
+STEP_LINES = ["interface Gi2", "description second", "no shutdown", "vlan 20", "name b", "bad", "show clock", "set system x", "ip route 10.0.0.0/8 2.2.2.2", "z"]
+
+
+def gen_file_steps(rng, text):
+    """1..2 further uses of the same path with the content changed in between (or an in-memory call in between)"""
+    steps = []
+    cur = text
+    for _ in range(rng.choice([1, 1, 2])):
+        how = rng.choice(["same", "same", "new", "other"])
+        k = rng.random()
+        new_lines = [rng.choice(STEP_LINES) for _ in range(rng.choice([1, 2, 3]))]
+        if k < 0.15:
+            steps.append({"how": how, "inmem": new_lines})
+            continue
+        if k < 0.45:
+            st = {"how": how, "change": "rewrite", "text": "\n".join(new_lines) + rng.choice(["", "\n"])}
+            cur = st["text"]
+        elif k < 0.65:
+            st = {"how": how, "change": "append", "text": ("" if cur.endswith("\n") or not cur else "\n") + "\n".join(new_lines) + "\n"}
+            cur = cur + st["text"]
+        elif k < 0.8:
+            keep = rng.randint(0, max(len(cur) - 1, 0))
+            st = {"how": how, "change": "truncate", "keep": keep}
+            cur = cur[:keep]
+        else:
+            st = {"how": how, "change": "rename", "text": "\n".join(new_lines) + "\n"}
+            cur = st["text"]
+        steps.append(st)
+    return steps
+
+
 def gen_case(rng, idn, stack=None, platform=None):
     plat = platform or rng.choice(NET_PLATFORMS + ["generic"])
     stack = stack or rng.choice(["sync", "async"])
@@ -644,6 +772,8 @@ def gen_case(rng, idn, stack=None, platform=None):
             case["generic_mode"] = True
         elif g < 0.10:
             case["decoy"] = True
+    if op in ("cfgsfile", "cmdsfile", "gfile") and not case["eager"] and not case["eager_input"] and not case.get("generic_mode") and rng.random() < 0.6:
+        case["file_steps"] = gen_file_steps(rng, case["text"])
     if not case.get("generic_mode") and rng.random() < 0.25:
         case["repeat"] = rng.choice([["same"], ["new"], ["other"], ["same", "same"], ["new", "other"], ["same", "other", "same"]])
     return finish_case(case)
@@ -738,6 +868,20 @@ def extra_special_cases(start_id):
                         if k == 2:
                             c["fail"] = []      # otherwise the run stops before line 2
                         out.append(finish_case(c))
+                        idn += 1
+    # file histories: the same path used again after rewrite / append / truncate / rename, same / new / other-stack connection
+    for plat in NET_PLATFORMS + ["generic"]:
+        for stack in ("sync", "async"):
+            for fop in (("gfile",) if plat == "generic" else ("cfgsfile", "cmdsfile")):
+                for how in ("same", "new", "other"):
+                    variants = [[{"how": how, "change": "rewrite", "text": "m0\nm1\nm2\n"}],
+                                [{"how": how, "change": "append", "text": "m0\nbad\nm2\n"}],
+                                [{"how": how, "change": "truncate", "keep": 5}],
+                                [{"how": how, "change": "rename", "text": "r0\n"}, {"how": "same", "change": "rewrite", "text": "r1\nr2"}],
+                                [{"how": how, "inmem": ["i0", "i1"]}, {"how": how, "change": "rewrite", "text": "m0\n"}]]
+                    for vi, fs in enumerate(variants):
+                        out.append(finish_case({**base, "id": idn, "platform": plat, "stack": stack, "op": fop, "text": "l0\nl1\nl2\n", "fail": ["bad"],
+                                                "stop": vi % 2 == 1, "file_steps": fs}))
                         idn += 1
     for stack in ("sync", "async"):
         for rp in (["same", "same"], ["new", "other"]):
@@ -858,7 +1002,7 @@ def evaluate(ck, cases, tmpdir, count=True):
         sample["lines"] = [l[:30] for l in expected_lines(c)[:6]]
         if count and dom:
             ck.case((c["platform"], c["stack"], c["op"], tuple(expected_lines(c)), c["stop"], c["eager"], c.get("eager_input"), str(c["fwc"]),
-                     tuple(c["fail"]), c.get("priv"), c.get("warm"), c.get("ret"), tuple(sorted(c["outputs"].items())), tuple(c.get("repeat", ()))),
+                     tuple(c["fail"]), c.get("priv"), c.get("warm"), c.get("ret"), tuple(sorted(c["outputs"].items())), tuple(c.get("repeat", ())), json.dumps(c.get("file_steps", []), sort_keys=True)),
                     nontrivial=nl >= 2 and (has_failure or c["eager"] or c["op"] in TEXT_OPS),
                     sample=sample,
                     tags=(f"platform={c['platform']}", f"stack={c['stack']}", f"op={c['op']}", f"n={min(nl, 6)}", f"stop={c['stop']}",
@@ -870,6 +1014,7 @@ def evaluate(ck, cases, tmpdir, count=True):
                           "long-line" if any(len(l) > 990 for l in expected_lines(c)) else "short-lines",
                           "generic_driver_mode" if c.get("generic_mode") else "priv-mode",
                           "history=" + ("+".join(c["repeat"]) if c.get("repeat") else "single-call"),
+                          "file-history=" + ("+".join((x.get("change") or "inmem") + "@" + x["how"] for x in c["file_steps"]) if c.get("file_steps") else "none"),
                           ("channel-failure=" + c["fault"]["kind"]) if c.get("fault") else "channel-ok"))
         elif count:
             ck.extra["advisory_out_of_domain_cases"] = ck.extra.get("advisory_out_of_domain_cases", 0) + 1
@@ -969,7 +1114,7 @@ def run(tier, seed):
                "(plain, empty, leading/trailing blanks, UTF-8, unicode line separators inside in-memory lines, 998..2400-byte lines, lines that "
                "contain marker text) x failing positions x marker set (driver default, constructor override, per-call str / list / empty list) x "
                "stop_on_failed x normal / eager / eager_input x return char x configuration level incl. registered EOS/NX-OS sessions x "
-               "driver already at the level or not x histories handing ONE list object to 2-4 calls (same connection, new connection, other stack). Small scope exhaustive: every list of length <= N over a 4-line alphabet x stop x every "
+               "driver already at the level or not x histories handing ONE list object to 2-4 calls (same connection, new connection, other stack) x file histories (the same path used 2-3 times with the content rewritten / appended / truncated / replaced by rename in between, same or other connection, mixed with in-memory calls). Small scope exhaustive: every list of length <= N over a 4-line alphabet x stop x every "
                "platform level. Non-trivial = >= 2 lines and (a failure, eager, or a text/file source); distinct by all parameters. "
                "Oracle: device exec_log outside acquire_priv spans == expected prefix (+ vendor abort lines), bytes written == each executed "
                "line + one return, flags vs markers in the device's own output, abort lines' modes, caller's containers unchanged after every call, "
